@@ -300,6 +300,16 @@ func (stmt *Statement) BuildCondition(query interface{}, args ...interface{}) []
 				return nil
 			}
 
+			if len(args) > 0 && strings.Contains(s, "?") && strings.Contains(s, "@") {
+				// '?' and '@name' in one template: the named arguments are not values of a '?'
+				for _, arg := range args {
+					switch arg.(type) {
+					case sql.NamedArg, map[string]interface{}:
+						return []clause.Expression{clause.NamedExpr{SQL: s, Vars: args}}
+					}
+				}
+			}
+
 			if len(args) == 0 || (len(args) > 0 && strings.Contains(s, "?")) {
 				// looks like a where condition
 				return []clause.Expression{clause.Expr{SQL: s, Vars: args}}
